@@ -54,6 +54,9 @@ pub fn exec(t: &[&str]) -> Option<String> {
         ["c17_keccak", h] => Some(keccak_line(&unhex(h))),
         ["c17_hs", h] => Some(hs_line(&unhex(h))),
         ["c17_hash_to_scalar", h] => Some(h2s_line(&unhex(h))),
+        // the provided method `Hashable::hash_to_scalar` on a type implementing `Hashable` (here PublicKey): Hs over the
+        // value's hash input, i.e. LE(x.hash()) mod l
+        ["c17_trait_hs", h] => Some(match monero::PublicKey::from_slice(&unhex(h)) { Ok(k) => { use monero::cryptonote::hash::Hashable; format!("{} {}", hex(&k.hash().0), hex(&k.hash_to_scalar().to_bytes())) } Err(_) => "err".into() }),
         _ => None,
     }
 }
@@ -77,6 +80,7 @@ fn msg_case(o: &mut Out, msg: &[u8], fam: &str, with_scalar: bool) {
         let w = mod_l_by_subtraction(&got);
         o.direct(s == w, "c17: hash_to_scalar(msg) == keccak(msg) mod l (by subtraction)", hex(msg), hex(&s), hex(&w));
         o.op(format!("c17_hash_to_scalar {}", hex(msg)), true);
+        if msg.len() % 64 == 0 { let sk = monero::Hash::hash_to_scalar(msg); let pk = monero::PublicKey::from_private_key(&sk); o.op(format!("c17_trait_hs {}", hex(&pk.to_bytes())), true); o.stat("trait_hs"); }
     }
 }
 fn hs_case(o: &mut Out, d: &[u8; 32], fam: &str) {
